@@ -11,6 +11,7 @@ import (
 	"fmt"
 	"io"
 	"os"
+	"reflect"
 	"sync"
 	"time"
 
@@ -27,10 +28,11 @@ const (
 	HPlainErr                        // return errors.New(...)
 	HPanic                           // panic
 	HSlow                            // simulated work, then the device answers
+	HRewriteErr                      // re-address the request object in place (as a gateway that forwards it does), then fail with a plain error
 	HForeignExc                      // return an error wrapping the *packet.ErrorResponseTCP of a downstream exchange (other transaction id and unit id), as a gateway handler does
 )
 
-var handlerModeNames = [...]string{"normal", "typed_error_ctor", "typed_error_filled", "plain_error", "panic", "slow", "wrapped_downstream_exception"}
+var handlerModeNames = [...]string{"normal", "typed_error_ctor", "typed_error_filled", "plain_error", "panic", "slow", "rewrites_request_then_fails", "wrapped_downstream_exception"}
 
 func (h HandlerMode) String() string { return handlerModeNames[h] }
 
@@ -173,6 +175,25 @@ func (h *srvHandler) Handle(ctx context.Context, req packet.Request) (packet.Res
 		return nil, &packet.ErrorParseTCP{Message: "handler refuses", Packet: packet.ErrorResponseTCP{TransactionID: tid, UnitID: unit, Function: req.FunctionCode(), Code: code}}
 	case HPlainErr:
 		return nil, errors.New("handler failed: database is down")
+	case HRewriteErr:
+		// the request object is the handler's to use: a forwarding handler re-addresses it for the downstream bus, the
+		// downstream exchange fails, the handler reports that
+		if v := reflect.ValueOf(req); v.Kind() == reflect.Ptr && v.Elem().Kind() == reflect.Struct {
+			for _, name := range []string{"TransactionID", "UnitID"} {
+				if f := v.Elem().FieldByName(name); f.IsValid() && f.CanSet() && f.CanUint() {
+					f.SetUint((f.Uint() + 0x11) & 0xff)
+				}
+			}
+			h.mu.Lock()
+			for i := len(h.held) - 1; i >= 0; i-- {
+				if h.held[i].req == req {
+					h.held[i].was = append([]byte(nil), safeBytes(req)...) // (what the handler itself made of it)
+					break
+				}
+			}
+			h.mu.Unlock()
+		}
+		return nil, errors.New("handler failed: downstream bus does not answer")
 	case HForeignExc:
 		// what modbus.Client.Do returns for a downstream device's exception, passed on with %w: its ids are those of the
 		// downstream exchange, not of this request
